@@ -35,7 +35,7 @@ if "--replay" in sys.argv[:-1]:
 SO_FILE = "reactivex/observer/scheduledobserver.py"
 OO_FILE = "reactivex/observer/observeonobserver.py"
 SHARED = {SO_FILE: {"queue", "is_acquired", "has_faulted"}, OO_FILE: {"queue", "is_acquired", "has_faulted"}}
-MODULES = ["reactivex.observer.scheduledobserver"]
+MODULES = ["reactivex.observer.scheduledobserver", "reactivex.subject.subject"]
 
 # the lock structure the transition system Core/SchedObs.v assumes (one entry per modelled method)
 EXPECTED = {
@@ -93,6 +93,8 @@ class World:
             for op in p:
                 if op[0] in ("note", "enq") and op[1] == "completed":
                     self.done_ident = op[2]
+                if op[0] == "scompleted":
+                    self.done_ident = op[1]
         mode = sc["mode"]
         spy = Spy(self)
         if mode == "observer":
@@ -109,6 +111,12 @@ class World:
             src.pipe(ops.observe_on(self.sched)).subscribe(
                 lambda v: spy.deliver(v), lambda e: spy.deliver(e.ident), lambda: spy.deliver(self.done_ident))
             self.target = box["o"]
+        elif mode == "replay":
+            # the REAL ReplaySubject on the harness scheduler: thread 0 feeds the subject, thread 1 subscribes
+            from reactivex.subject import ReplaySubject
+            self.subject = ReplaySubject(scheduler=self.sched)
+            self.spy = spy
+            self.target = None
         else:
             raise ValueError(mode)
 
@@ -128,6 +136,14 @@ class World:
                 t.on_completed()
         elif op[0] == "ensure":
             t.ensure_active()
+        elif op[0] == "snext":
+            self.subject.on_next(op[1])
+        elif op[0] == "scompleted":
+            self.subject.on_completed()
+        elif op[0] == "subscribe":
+            spy = self.spy
+            self.subject.subscribe(lambda v: spy.deliver(v), lambda e: spy.deliver(e.ident),
+                                   lambda: spy.deliver(self.done_ident))
         else:
             raise ValueError(op)
 
@@ -286,6 +302,9 @@ def oracle(sc, log, w):
         if entered.count(i) > 1:
             bad.append(("delivered-twice", f"notification {i} delivered {entered.count(i)} times: {entered}"))
     received = [[op[2] for op in gated(p) if op[0] in ("note", "enq")] for p in sc["progs"]]
+    if sc["mode"] == "replay":
+        # one subscriber of a ReplaySubject: everything the subject was fed, before or after the subscription
+        received = [[op[1] for op in p if op[0] in ("snext", "scompleted")] for p in sc["progs"]]
     allrecv = [i for r in received for i in r]
     for i in entered:
         if i not in allrecv:
@@ -348,6 +367,9 @@ FIXED = [
     {"mode": "scheduled", "progs": [[("enq", "next", 1), ("ensure",)], [("enq", "next", 2), ("ensure",)]],
      "workers": 2, "raises": []},
     {"mode": "observer", "progs": [[N(1), N(2)], [N(3), N(4)]], "workers": 1, "raises": []},
+    {"mode": "replay", "progs": [[("snext", 1), ("snext", 2), ("scompleted", 3)], [("subscribe",)]], "workers": 1,
+     "raises": []},
+    {"mode": "replay", "progs": [[("snext", 1), ("snext", 2)], [("subscribe",)]], "workers": 2, "raises": [1]},
 ]
 
 
@@ -436,7 +458,7 @@ def run(chk):
             def once(chooser, sc=sc):
                 c, w = run_once(sc, chooser)
                 return c.trace, (c, w)
-            results = list(k3.explore(once, bound))
+            results = list(k3.explore(once, bound, limit=(None if tier == "quick" else 6000)))
             for _ in range(nrandom):
                 tr, cw = once(k3.random_chooser(chk.rng))
                 results.append(([x for x, _ in tr], cw))
@@ -452,7 +474,8 @@ def run(chk):
                     chk.violation(f"C32|{sc['mode']}|{tag}",
                                   {"mode": "concurrent", "scenario": sc, "schedule": sched, "implementation_log": log,
                                    "oracle": tag, "what": msg}, size=len(sched))
-                cases.append((sc, sched, log))
+                if sc["mode"] != "replay":
+                    cases.append((sc, sched, log))
             stats["modes"][sc["mode"]] = stats["modes"].get(sc["mode"], 0) + len(results)
             stats["workers"][str(sc["workers"])] = stats["workers"].get(str(sc["workers"]), 0) + len(results)
             stats["raising"] += len(results) if sc["raises"] else 0
@@ -484,9 +507,11 @@ def run(chk):
     chk.cov["distinct_nontrivial"] = len(stats["nontrivial"])
     chk.cov["rule"] = (
         "K3: the real ObserveOnObserver (direct and through the observe_on pipeline, downstream = AutoDetachObserver) "
-        "and the real ScheduledObserver driven ReplaySubject-style (on_xxx ... ensure_active), with a harness scheduler "
+        "and the real ScheduledObserver driven ReplaySubject-style (on_xxx ... ensure_active), plus the REAL ReplaySubject "
+        "(one thread feeding it, one subscribing; oracle only), with a harness scheduler "
         "whose queued `run` actions are started by 1 or 2 logical worker threads; 1-2 producer threads sending 2-4 "
         f"notifications (next/error/completed, optional raising delivery); ALL schedules with at most {bound} preemptions "
+        "(thorough tier: stateless enumeration capped at 6000 per scenario) "
         f"plus {nrandom} seeded random schedules per scenario; every run compared step-for-step with the Coq transition "
         "system under the same schedule and judged by the direct oracle at quiescence.  non-trivial = a schedule with "
         "at least one preemption, counted as distinct (scenario, schedule).  Plus observe_on on the virtual-time "
